@@ -19,7 +19,7 @@ Import ListNotations.
 Open Scope N_scope.
 
 (* For every path class of the lattice (2 transports x 4 method kinds x 18 exits
-   x 8 features, 470 valid classes: finite, swept by vm_compute and lifted with
+   x 13 features, 675 valid classes: finite, swept by vm_compute and lifted with
    forallb_forall) and EVERY number of successful stream turns before the exit
    (induction), the Current traces leave nothing behind — no object at all,
    tracked by the checked allocator or not — unless the class is an HTTP
@@ -101,5 +101,5 @@ Example premises_satisfiable :
   /\ forallb call_valid [Call tP kX eTErr fShm 3; Call tH kR eCap fExtOut 2; Call tH kX eOk fExtCast 5] = true
   /\ forallb (fun c => negb (call_in_finding c))
        [Call tP kX eTErr fShm 3; Call tH kR eCap fExtOut 2; Call tH kX eOk fExtCast 5] = true
-  /\ length all_classes = 470%nat.
+  /\ length all_classes = 675%nat.
 Proof. repeat split; vm_compute; reflexivity. Qed.
